@@ -823,3 +823,36 @@ def handle_deref_lifetime(ctx, rid, classes, floor=1):
     if n == 0:
         ctx.note("%s: no handle dereference inside the analysed classes" % rid)
     return n
+
+
+# ------------------------------------------------------------ init order
+def init_order(ctx, rid, classes, floor=1):
+    """constructor initialisers run in declaration order: an initialiser must not read a member that is declared
+    (and therefore initialised) later - e.g. lr_guarded's m_right(m_left) needs m_left to come first"""
+    ctx.rule(rid, "no constructor initialiser reads a member that is declared later (initialisation follows declaration order)",
+             floor=floor)
+    fb = ctx.fb
+    n = 0
+    for cls in classes:
+        for r in fb.records(tmpl=cls):
+            order = {fl["name"]: i for i, fl in enumerate(r.fields)}
+            for f in fb.functions(rec=cls):
+                if f.kind != "ctor" or f.recq != r.qname or f.defaulted:
+                    continue
+                for ini in f.inits:
+                    fld = ini.get("field")
+                    init = f.s(ini.get("init"))
+                    if fld is None or init is None or fld not in order:
+                        continue
+                    n += 1
+                    late = []
+                    for d in f.descendants(init):
+                        if d["k"] == "MemberExpr" and d["m"].get("is_field") and d["m"].get("rec") == cls and \
+                                path(f, f.s(d["base"])) == "this":
+                            nm = d["m"]["name"]
+                            if order.get(nm, -1) > order[fld] or (order.get(nm, -1) == order[fld] and nm != fld):
+                                late.append(nm)
+                    ctx.ob(rid, not late, f.loc(init), "initialiser of %s::%s reads only members declared before it" % (r.name, fld),
+                           "" if not late else "it reads %s, which is initialised later (declaration order)" % late,
+                           fn=f.label, inst=f.qname)
+    return n
